@@ -96,8 +96,38 @@ def answer (idx : String) (expireds : List Bool) (kind len win setup thr order g
       else idx ++ " NOT-ADMISSIBLE got=" ++ got ++ " fin=" ++ fin ++ " admissible=" ++ "|".intercalate (dedup outs)
   | _, _, _, _, _ => idx ++ " bad-op"
 
+/-- `multi <idx> <window> kinds=c4,c7,r setup=… thr=…` (ops in the order one signaller ran them):
+which waiters are obliged to have returned in the final state (credit waiters whose condition holds; with a
+cancel everybody), whether a resume is staged, the final offsets. -/
+def multiAnswer (idx win kinds su th : String) : String :=
+  let kind? (w : String) : Option Kind :=
+    if w = "r" then some .reconnect
+    else if w.startsWith "c" then (natOf? (w.drop 1).toString).map Kind.credit else none
+  match natOf? win, (kinds.splitOn ",").mapM kind?, parseOps su, parseOps th with
+  | some w, some ks, some su, some th =>
+    let s0 := su.foldl (fun s o => (applyOp Gen.Wake.cfg.tbl o s).1) (Sh.new w)
+    -- the n-waiter model: everybody parks, then the ops run
+    let kf : Nat → Kind := fun i => ks.getD i .reconnect
+    let park : List MEv := (List.range ks.length).flatMap fun i => [MEv.lock i, MEv.check i false]
+    let st := mrun Gen.Wake.cfg kf (MSt.init s0) (park ++ th.map fun o => MEv.op o 0)
+    let sh := st.sh
+    let must := (List.range ks.length).filter fun i =>
+      match kf i with
+      | .credit len => pred (.credit len) sh
+      | .reconnect => sh.cancelled.isSome
+    -- model-side sanity: nobody obliged to return is still parked (the theorem, evaluated)
+    let lost := must.filter fun i => st.pc i == .parked
+    let mustS := if must.isEmpty then "-" else ",".intercalate (must.map toString)
+    let base := s!"{idx} must={mustS} cancelled={if sh.cancelled.isSome then 1 else 0} pending={if sh.pending.isSome then 1 else 0} fin={showFin sh}"
+    if lost.isEmpty then base else base ++ " MODEL-LOST-WAKEUP " ++ ",".intercalate (lost.map toString)
+  | _, _, _, _ => idx ++ " bad-op"
+
 def step (st : Unit) (ws : List String) : Unit × String :=
   match ws with
+  | ["multi", idx, win, kinds, su, th] =>
+    match field "kinds" kinds, field "setup" su, field "thr" th with
+    | some k, some su, some th => (st, multiAnswer idx win k su th)
+    | _, _, _ => (st, idx ++ " bad-op")
   | [cmd, idx, kind, len, win, su, th, ord, got, fin] =>
     if cmd = "wake" ∨ cmd = "race" ∨ cmd = "tmo" ∨ cmd = "imm" ∨ cmd = "trk" then
       match field "setup" su, field "thr" th, field "order" ord, field "got" got, field "fin" fin with
